@@ -475,6 +475,9 @@ func (m *vpMetrics) SetIsLeader(value float64, labels prometheus.Labels) {
 	if m.onFlag != nil {
 		m.onFlag(value)
 	}
+	if m.yieldOn {
+		vpYield("metrics.is-leader")
+	}
 }
 func (m *vpMetrics) SetConnectionStatus(value float64, labels prometheus.Labels) { m.connStatus = value }
 func (m *vpMetrics) IncTransitions(labels prometheus.Labels) {
@@ -488,7 +491,11 @@ func (m *vpMetrics) IncAcquireAttempts(labels prometheus.Labels)         {}
 func (m *vpMetrics) IncTokenValidationFailures(labels prometheus.Labels) { m.tokenFails++ }
 func (m *vpMetrics) ObserveHeartbeatDuration(duration time.Duration, labels prometheus.Labels) {
 }
-func (m *vpMetrics) ObserveLeaderDuration(duration time.Duration, labels prometheus.Labels) {}
+func (m *vpMetrics) ObserveLeaderDuration(duration time.Duration, labels prometheus.Labels) {
+	if m.yieldOn {
+		vpYield("metrics.leader-duration")
+	}
+}
 
 // scripted health checker: verdict per call chosen by the solver/explorer
 type vpHealth struct {
